@@ -610,8 +610,11 @@ class RelativeJSONPointer:
         if self.index and parts and self._int_like(parts[-1]):
             new_index = int(parts[-1]) + self.index
             if new_index < 0:
+                # (an index of more digits than `str()` converts is not printed)
                 raise RelativeJSONPointerIndexError(
                     f"index offset out of range {new_index}"
+                    if new_index >= _pointer.min_int_index
+                    else "index offset out of range"
                 )
             if new_index > _pointer.max_int_index:
                 # No pointer can hold such an index (and an integer of more
